@@ -24,7 +24,7 @@ TRANSPARENT = (
 )
 
 
-def simple_paths(body, src, dst, avoid=(), limit=512):
+def simple_paths(body, src, dst, avoid=(), limit=512, pins=None):
     """Simple (block-repetition-free) paths src -> dst over non-cleanup edges, not entering `avoid`."""
     avoid = set(avoid)
     out = []
@@ -47,7 +47,7 @@ def simple_paths(body, src, dst, avoid=(), limit=512):
             return
         # constants known on this path (bool flags, enum variants built by aggregates, `?` on them) prune
         # the edges that cannot be taken
-        known = bool_transfer(body, bb, known)
+        known = bool_transfer(body, bb, known, pins)
         only = bool_switch_target(body, bb, known)
         for s in normal_succ(body, bb):
             if only is not None and s != only:
@@ -55,7 +55,7 @@ def simple_paths(body, src, dst, avoid=(), limit=512):
             if s in seen or s in avoid or s not in can:
                 continue
             go(s, path + [bb], seen | {s}, known)
-    go(src, [], {src}, {})
+    go(src, [], {src}, {k: v for k, v in (pins or {}).items() if isinstance(k, tuple)})
     return out
 
 
